@@ -21,7 +21,7 @@ MANIFEST = {'text': 'proof (dominators + no intervening store) that every payloa
                     'agreement of the encoder width/type-word table with the decoder tyle->length table.'
                     " Added: every decoded string passes the CR/LF/TAB replacement; every value narrowed into the encoder's 16-bit length prefix is bounded by 65535 by the dominating guards."
                     ' Added: a single byte of an argument value is read only under len == 1, for BOOL, or for string/raw data - in the renderer and in every helper that receives the argument '
-                    '(multi-byte numbers are decoded from the whole slice in the message byte order); the renderer never casts a float to an integer.'}
+                    '(multi-byte numbers are decoded from the whole slice in the message byte order); the renderer never casts a float to an integer. Added: string text handed to the decoder is not delimited by a search (one trailing NUL only); in the raw-data branch the first-byte test is on the index of enumerate() over the whole raw value. Added: the separator between arguments is decided by the argument position (enumerate over the argument iterator). Added: the decode table of the renderer - every from_be/le_bytes row has the signedness of its type-info branch, the width of its length arm and the byte order of its is_big_endian edge; the argument separator is guarded by the position alone.'}
 
 ARGIT = 'adlt::dlt::DltMessageArgIterator'
 SER = 'adlt::serde_verb_payload::ser_verb_payload::Serializer'
@@ -58,6 +58,12 @@ def run(F, chk):
     check_single_byte_reads(F, D6)
     D7 = chk.rule('D7', 'string arguments: the text handed to the decoder is the raw value minus at most the one trailing NUL (no search for a NUL inside the string)')
     check_string_extent(F, D7)
+    D8 = chk.rule('D8', 'raw data: the byte separator is decided by the position of the byte in the whole raw value (index of an enumerate() directly over payload_raw), so exactly every byte but the first is preceded by one space')
+    check_rawd_separator(F, D8)
+    D9 = chk.rule('D9', 'arguments are separated by one space decided by the position of the argument (index of enumerate() over the argument iterator), not by what has been rendered so far')
+    check_arg_separator(F, D9)
+    D10 = chk.rule('D10', 'integer and float arguments: every from_be/le_bytes in the renderer decodes to the type of its branch - unsigned under UINT, signed under SINT, float under FLOA - of exactly the width its length arm states, big-endian decode on the is_big_endian edge')
+    check_numeric_decode_table(F, D10)
 
 
 def vars_of(e):
@@ -319,6 +325,15 @@ def check_tables(F, dec, D1):
 DECODE_STR = re.compile(r'(from_utf8_lossy|decode_without_bom_handling|from_utf8|from_utf8_unchecked|decode)$')
 
 
+def in_type_branch(cfg, EF, at, mask):
+    """is block `at` dominated by the true edge of `type_info & mask > 0`"""
+    for (c, truth, D) in guards.known(cfg, EF, at):
+        if truth is True and isinstance(c, tuple) and c[0] == 'bin' and c[1] in ('Gt', 'Ne') and fold(c[3]) == 0 and isinstance(c[2], tuple) and c[2][0] == 'bin' and c[2][1] == 'BitAnd' \
+                and 'type_info' in show(c[2][2]) and fold(c[2][3]) == mask:
+            return True
+    return False
+
+
 def check_string_sanitised(F, D3):
     """in the argument renderer every push_str whose text derives from decoding payload bytes as a string
     (from_utf8_lossy / WINDOWS_1252.decode...) also derives from Regex::replace_all (RE_NEW_LINE)"""
@@ -330,6 +345,7 @@ def check_string_sanitised(F, D3):
     D3.fn(b.path)
     cfg = CFG(b)
     pr = Prov(cfg)
+    EF = ExprBuilder(cfg, fold_named=True)
     n = 0
     for blk in b.calls():
         t = blk.term
@@ -340,6 +356,9 @@ def check_string_sanitised(F, D3):
             toks |= pr.operand(a, at=blk.i)
         calls = calls_in(toks)
         if not any(DECODE_STR.search(c) for c in calls):
+            continue
+        # inside the raw-data branch the text is hex digits produced by the renderer itself (whatever buffer it goes through)
+        if in_type_branch(cfg, EF, blk.i, 0x400):
             continue
         n += 1
         D3.sites += 1
@@ -750,3 +769,264 @@ def check_string_extent(F, D7):
             else:
                 D7.ok(sample={'decoder_call': x.loc(t.sp), 'input': 'raw value, extent not determined by a search'})
     D7.floor('text decoder calls on the raw value in the renderer', n, 2)
+
+
+# ---------------------------------------------------------------------------------------------
+# D8: raw data separators
+
+def check_rawd_separator(F, D8):
+    """"raw data as space-separated lower-case hex bytes": in the raw-data branch of the renderer the only thing that may
+    distinguish the first byte from the others is its index in the *whole* raw value.  Every comparison of an index with 0
+    inside that branch must be on the index component of `enumerate()` applied directly to an iterator over
+    `arg.payload_raw` (the slice itself or its full range) - an index local to a chunk / window / split piece drops the
+    separator at every piece boundary."""
+    b = F.get('adlt::dlt::DltMessage::process_msg_arg_iter')
+    if b is None:
+        D8.violation(('anchor-lost', 'process_msg_arg_iter'), 'argument renderer not found')
+        return
+    D8.fn(b.path)
+    cfg = CFG(b)
+    E = ExprBuilder(cfg, fold_named=True)
+    n = 0
+
+    def whole_raw(x):
+        for _ in range(10):
+            if not isinstance(x, tuple):
+                return False
+            if x[0] in ('ref', 'cast'):
+                x = x[1]
+            elif x[0] == 'proj' and all(p_ == '*' for p_ in x[2:]):
+                x = x[1]
+            elif x[0] == 'call' and re.search(r'::(iter|into_iter|deref|as_ref)$', x[1]) and len(x[2]) == 1:
+                x = x[2][0]
+            elif x[0] == 'call' and x[1].endswith('::index') and len(x[2]) == 2:
+                r = x[2][1]
+                full = isinstance(r, tuple) and r[0] == 'agg' and ((r[1].endswith('Range::Range') and fold(r[2][0]) == 0 and 'payload_raw' in show(r[2][1]) and ('len(' in show(r[2][1]) or 'PtrMetadata' in show(r[2][1]))) or
+                                                                     r[1].endswith('RangeFull::RangeFull'))
+                if not full:
+                    return False
+                x = x[2][0]
+            elif x[0] in ('place', 'proj'):
+                pj = [p_ for p_ in x[2:] if p_ != '*']
+                return bool(pj) and pj[-1] == '.payload_raw'
+            else:
+                return False
+        return False
+    for blk in b.blocks:
+        if blk.cleanup or blk.term.k != 'switch' or not in_type_branch(cfg, E, blk.i, 0x400):
+            continue
+        c = E.switch_cond(blk)
+        if not (isinstance(c, tuple) and c[0] == 'bin' and c[1] in ('Gt', 'Eq', 'Ne', 'Ge', 'Lt', 'Le') and (fold(c[3]) in (0, 1) or fold(c[2]) in (0, 1))):
+            continue
+        idx = c[2] if fold(c[3]) in (0, 1) else c[3]
+        sidx = show(idx)
+        if 'is_empty' in sidx or sidx.startswith('discr(') or 'type_info' in sidx or 'len(' in sidx[:12]:
+            continue
+        n += 1
+        D8.sites += 1
+        ok = False
+        top = idx
+        if isinstance(top, tuple) and top[0] == 'proj' and isinstance(top[1], tuple) and top[1][0] == 'call' and top[1][1].endswith('Iterator::next') and tuple(top[2:]) == ('@Some', '.0', '.0'):
+            it = top[1][2][0]
+            for _ in range(6):
+                if isinstance(it, tuple) and (it[0] == 'ref' or (it[0] == 'proj' and len(it) == 2)):
+                    it = it[1]
+                elif isinstance(it, tuple) and it[0] == 'call' and it[1].endswith('IntoIterator::into_iter') and it[2]:
+                    it = it[2][0]
+            if isinstance(it, tuple) and it[0] == 'call' and it[1].endswith('Iterator::enumerate') and whole_raw(it[2][0]):
+                ok = True
+        if ok:
+            D8.ok(sample={'first_byte_test_at': b.loc(blk.term.sp), 'index_of': 'enumerate() over the whole raw value'})
+        else:
+            D8.violation(('rawd-separator-by-local-index', b.path), 'in the raw-data branch the first-byte test at %s compares %s, which is not the index of the byte in the whole raw value: separators are dropped (or doubled) at the boundaries of the pieces it is local to' %
+                         (b.loc(blk.term.sp), sidx[:70]), where=b.loc(blk.term.sp))
+    # second spelling: take the first byte off the iterator (`if let Some(first) = it.next()`), then loop over the *same*
+    # iterator for the remaining bytes - the Some edge of the first next() is the first-byte test
+    loops = cfg.loops()
+    groups = {}
+    for blk in b.calls():
+        t = blk.term
+        if t.callee.path != 'std::iter::Iterator::next' or not t.args or 'slice::Iter<' not in (t.args[0].ty or '') or 'u8' not in (t.args[0].ty or ''):
+            continue
+        if not in_type_branch(cfg, E, blk.i, 0x400):
+            continue
+        root = cfg.origin_of_operand(t.args[0])
+        if root is None or not root.is_local:
+            continue
+        rl = root.l
+        for _ in range(6):
+            # `for c in it` moves the iterator through IntoIterator::into_iter: the same iterator
+            sd_ = cfg.single_def(rl)
+            if sd_ is not None and sd_[1] == 'call' and sd_[2].callee.path.endswith('IntoIterator::into_iter') and sd_[2].args and sd_[2].args[0].place is not None and sd_[2].args[0].place.is_local and not sd_[2].args[0].place.p:
+                r2 = cfg.origin_of_operand(sd_[2].args[0])
+                if r2 is not None and r2.is_local:
+                    rl = r2.l
+                    continue
+            if sd_ is not None and sd_[1] != 'call' and sd_[2].rv['k'] == 'use' and Operand(sd_[2].rv['o']).place is not None and Operand(sd_[2].rv['o']).place.is_local and not Operand(sd_[2].rv['o']).place.p:
+                rl = Operand(sd_[2].rv['o']).place.l
+                continue
+            break
+        root = type('R', (), {'l': rl})()
+        src = E.operand(t.args[0])
+        while isinstance(src, tuple) and (src[0] == 'ref' or (src[0] == 'proj' and len(src) == 2) or (src[0] == 'call' and src[1].endswith('IntoIterator::into_iter') and src[2])):
+            src = src[1] if src[0] != 'call' else src[2][0]
+        inner = [h for h, lb in loops.items() if blk.i in lb and in_type_branch(cfg, E, h, 0x400)]
+        groups.setdefault(root.l, []).append((blk, bool(inner), whole_raw(src)))
+    for l, calls in groups.items():
+        firsts = [c for c in calls if not c[1]]
+        rests = [c for c in calls if c[1]]
+        if firsts and rests:
+            n += 1
+            D8.sites += 1
+            if all(c[2] for c in calls) and len(firsts) == 1:
+                D8.ok(sample={'first_byte_taken_at': b.loc(firsts[0][0].term.sp), 'rest_looped_over': 'the same iterator over the whole raw value'})
+            else:
+                D8.violation(('rawd-separator-by-local-index', b.path), 'in the raw-data branch the first byte is taken off an iterator at %s that does not run over the whole raw value (or more than once): separators do not follow the byte position' % b.loc(firsts[0][0].term.sp),
+                             where=b.loc(firsts[0][0].term.sp))
+    D8.floor('first-byte tests in the raw-data branch of the renderer', n, 1)
+
+
+# ---------------------------------------------------------------------------------------------
+# D9: the argument separator
+
+def check_numeric_decode_table(F, D10):
+    """"canonical decimal text": the renderer is a table (class of the type info) x (length of the value) -> integer type.  A row
+    that decodes with the wrong signedness (UINT 64 bit as i64), the wrong width or the other byte order renders a different
+    number for part of the value range only (values >= 2^63, ..), which no fixed sample shows.  Rows may live in private
+    helpers the renderer calls with the argument (`push_uint_arg(arg, ..)`): the class is then that of the call site."""
+    b = F.get('adlt::dlt::DltMessage::process_msg_arg_iter')
+    if b is None:
+        D10.violation(('anchor-lost', 'process_msg_arg_iter'), 'argument renderer not found')
+        return
+    D10.fn(b.path)
+    cfg = CFG(b)
+    EF = ExprBuilder(cfg, fold_named=True)
+    CLASS = ((0x40, 'u', 'UINT'), (0x20, 'i', 'SINT'), (0x80, 'f', 'FLOA'))
+
+    def classes_at(bi):
+        return [(mask, l, nm) for (mask, l, nm) in CLASS if in_type_branch(cfg, EF, bi, mask)]
+    units = [(b, cfg, EF, None)]            # (body, cfg, E, class fixed by the call site or None)
+    for cb in b.calls():
+        t = cb.term
+        H = F.get(t.callee.resolved) if t.callee.resolved else F.get(t.callee.path)
+        if H is None or H.kind == 'closure' or H.crate != 'lib' or H.path == b.path:
+            continue
+        if not any(re.match(r"&(mut )?adlt::dlt::DltArg<", a.ty or '') or (a.ty or '') == '&[u8]' for a in t.args):
+            continue
+        if not any(re.search(r'::from_(be|le|ne)_bytes$', x.term.callee.path) for x in H.calls()):
+            continue
+        cls = classes_at(cb.i)
+        hcfg = CFG(H)
+        units.append((H, hcfg, ExprBuilder(hcfg, fold_named=True), cls))
+        D10.fn(H.path)
+    n = 0
+    for (body, c_, E_, fixed) in units:
+        pnames = [body.name_of(i) or 'arg%d' % i for i, t_ in enumerate(body.arg_types(), start=1) if t_ == '&[u8]'] if fixed is not None else []
+        for blk in body.calls():
+            m = re.match(r'^core::(?:num|f\d+)::<impl ([uif])(\d+)>::from_(be|le|ne)_bytes$', blk.term.callee.path)
+            if not m:
+                continue
+            letter, bits, order = m.group(1), int(m.group(2)), m.group(3)
+            n += 1
+            D10.sites += 1
+            where = body.loc(blk.term.sp)
+            cls = fixed if fixed is not None else classes_at(blk.i)
+            if fixed is not None and len(fixed) != 1:
+                # a helper shared by several classes decides the class itself
+                cls = [(mask, l, nm) for (mask, l, nm) in CLASS if in_type_branch(c_, E_, blk.i, mask)]
+            width = None
+            endian = None
+            for (c, truth, D) in guards.known(c_, E_, blk.i):
+                sc = show(c)
+                if re.search(r'(len\(|PtrMetadata\()', sc) and ('payload_raw' in sc or any(re.search(r'(^|[^A-Za-z0-9_])%s($|[^A-Za-z0-9_])' % re.escape(pn), sc) for pn in pnames)):
+                    is_cmp = isinstance(c, tuple) and c[0] == 'bin'
+                    if not is_cmp and isinstance(truth, tuple) and truth[0] == 'eq':
+                        width = truth[1]               # `match raw.len() { 2 => ..`: switch on the length itself
+                    elif is_cmp and c[1] == 'Eq' and truth is True and fold(c[3]) is not None:
+                        width = fold(c[3])             # `if raw_len == 2`
+                if truth in (True, False) and (re.search(r'\.is_big_endian\)?$', sc) or (fixed is not None and re.match(r'^\(?\*?\(?\w*big_endian\w*\)?\)?$', sc))):
+                    endian = truth
+            probs = []
+            if len(cls) != 1:
+                probs.append(('class-unknown', 'is not inside exactly one of the UINT / SINT / FLOA branches'))
+            elif cls[0][1] != letter:
+                probs.append(('signedness', 'decodes as %s%d inside the %s branch' % (letter, bits, cls[0][2])))
+            if width is None:
+                probs.append(('width-unknown', 'is not under a test of the length of the raw value'))
+            elif width * 8 != bits:
+                probs.append(('width', 'decodes %d bits in the arm for values of %d bytes' % (bits, width)))
+            if order == 'ne' or endian is None:
+                probs.append(('byte-order', 'is not selected by is_big_endian'))
+            elif endian != (order == 'be'):
+                probs.append(('byte-order', 'uses from_%s_bytes on the is_big_endian == %s edge' % (order, str(endian).lower())))
+            if probs:
+                for k, pr in probs:
+                    D10.violation(('decode-table', k, '%s%d' % (letter, bits)), 'the decode %s%d::from_%s_bytes at %s %s: the rendered number differs from the encoded one for part of the value range' % (letter, bits, order, where, pr), where=where)
+            else:
+                D10.ok(sample={'row': '%s x %d bytes' % (cls[0][2], width), 'decodes_as': '%s%d' % (letter, bits), 'order': order, 'at': where})
+    D10.floor('from_be/le_bytes rows of the renderer', n, 10)
+
+
+def check_arg_separator(F, D9):
+    """"arguments joined by single spaces": n arguments give n - 1 separators, also when an argument renders to the empty string
+    (empty string, zero-length raw data).  The separator push at the head of the argument loop (a String::push of ' ' that is
+    not inside any type branch) must be guarded by `index > 0` where index is the enumerate() position over the argument
+    iterator parameter; a guard on the text (`!text.is_empty()`) drops separators after empty leading arguments."""
+    b = F.get('adlt::dlt::DltMessage::process_msg_arg_iter')
+    if b is None:
+        D9.violation(('anchor-lost', 'process_msg_arg_iter'), 'argument renderer not found')
+        return
+    D9.fn(b.path)
+    cfg = CFG(b)
+    E = ExprBuilder(cfg, fold_named=True)
+    it_param = None
+    for i, t in enumerate(b.arg_types(), start=1):
+        if not t.startswith('&'):
+            it_param = b.name_of(i) or 'arg%d' % i
+            break
+    n = 0
+    for blk in b.calls():
+        t = blk.term
+        if not (t.callee.path.endswith('String::push') and len(t.args) > 1 and t.args[1].is_const and t.args[1].value in (32, ' ')):
+            continue
+        if any(in_type_branch(cfg, E, blk.i, m) for m in (0x10, 0x20, 0x40, 0x80, 0x200, 0x400)):
+            continue
+        n += 1
+        D9.sites += 1
+        ok = None
+        for (c, truth, D) in guards.known(cfg, E, blk.i):
+            if truth is True and isinstance(c, tuple) and c[0] == 'bin' and c[1] in ('Gt', 'Ne') and fold(c[3]) == 0:
+                idx = c[2]
+                if isinstance(idx, tuple) and idx[0] == 'proj' and isinstance(idx[1], tuple) and idx[1][0] == 'call' and idx[1][1].endswith('Iterator::next') and tuple(idx[2:]) == ('@Some', '.0', '.0'):
+                    it = idx[1][2][0]
+                    for _ in range(6):
+                        if isinstance(it, tuple) and (it[0] == 'ref' or (it[0] == 'proj' and len(it) == 2)):
+                            it = it[1]
+                        elif isinstance(it, tuple) and it[0] == 'call' and it[1].endswith('IntoIterator::into_iter') and it[2]:
+                            it = it[2][0]
+                    if isinstance(it, tuple) and it[0] == 'call' and it[1].endswith('Iterator::enumerate') and it[2] and it[2][0] == ('place', it_param):
+                        ok = 'index of enumerate() over `%s` > 0' % it_param
+        # .. and by nothing else: any further condition between the loop head and the push (a test of the text, of the
+        # argument type, ..) makes the separator depend on more than the position
+        extra = None
+        if ok:
+            loops = cfg.loops()
+            inner = [lb for lb in loops.values() if blk.i in lb]
+            body_blocks = min(inner, key=len) if inner else set()
+            for (c, truth, D) in guards.known(cfg, E, blk.i):
+                if D not in body_blocks:
+                    continue
+                cs = show(c)
+                if isinstance(c, tuple) and c[0] == 'bin' and c[1] in ('Gt', 'Ne') and fold(c[3]) == 0 and 'Iterator::next' in cs:
+                    continue
+                if cs.startswith('discr(') and 'Iterator::next(' in cs and 'ends_with' not in cs:
+                    continue
+                extra = cs[:80]
+        if ok and extra:
+            ok = None
+        if ok:
+            D9.ok(sample={'separator_push_at': b.loc(t.sp), 'guard': ok})
+        else:
+            D9.violation(('separator-not-by-position', b.path), 'the separator between arguments is pushed at %s under a guard that is not `position of the argument > 0`: arguments that render to nothing lose (or gain) separators, '
+                         'the text is no longer the single-space join of the rendered arguments' % b.loc(t.sp), where=b.loc(t.sp))
+    D9.floor('separator pushes at the head of the argument loop', n, 1)
